@@ -222,8 +222,8 @@ class Analysis:
                 return env.ints[i].copy()
             return Val(0) if self.unsigned(e[4] if len(e) > 4 else "") else None
         if k == "path":
-            m = re.search(r"::(\w+)$", e[2])
-            return None
+            v = H.int_lit(e)  # a named integer constant stands for its value
+            return Val.const(v) if v is not None else None
         if k == "un" and e[2] == "Deref":
             return self.iv(e[3], env)
         if k == "ref":
